@@ -96,6 +96,31 @@ def replay_fill_{tag}(has_section, deep, ch):
 ''')
     for L in range(1, 7):
         out.append(f'''
+def headpre_L{L}(mask: int) -> bool:
+    """
+    pre: 0 <= mask < 64
+    post: _
+    """
+    return heading_pre_step(mask, {L})
+
+
+def replay_headpre_L{L}(mask):
+    return replay_doc(canonical_pre_doc(mask, "=" * {L} + "n" + "=" * {L}))
+''')
+    out.append('''
+def hlinepre_all(mask: int) -> bool:
+    """
+    pre: 0 <= mask < 64
+    post: _
+    """
+    return hline_pre_step(mask)
+
+
+def replay_hlinepre_all(mask):
+    return replay_doc(canonical_pre_doc(mask, "----"))
+''')
+    for L in range(1, 7):
+        out.append(f'''
 def hend_L{L}(mask: int) -> bool:
     """
     pre: 0 <= mask < 64
@@ -199,7 +224,7 @@ def run(rep: C.Report) -> None:
         "which list continues / nests / starts). The lemmas are closed under the state abstraction, so they compose to documents of any length. Counterexamples are replayed "
         "through Wtp.parse on the canonical document of the pre-state and compared with an independent reference builder."
     )
-    rep.assumptions += ["state abstraction: only sections and */# lists are open at a line start; the last open item holds text ending in a newline", "begline representation invariant", "the induction itself is a paper argument (DESIGN.md), the checks discharge its steps"]
+    rep.assumptions += ["state abstraction: only sections and */# lists, or sections and one preformatted block, are open at a line start; the last open item holds text ending in a newline", "begline representation invariant", "the induction itself is a paper argument (DESIGN.md), the checks discharge its steps"]
     rep.outside += ["; and : definition lists, list continuation with ':'", "fillers with markup, headings inside HTML or tables", "markers deeper than the bound"]
     rep.trusted += ["CrossHair 0.0.110", "z3", "reference builder in harness/C02_steps.py"]
     src = open(H).read() + "\n" + gen(quick)
@@ -208,6 +233,7 @@ def run(rep: C.Report) -> None:
         H,
         {
             "^head_": dict(name="Ob1 heading step: lower-level sections stay open, everything else closes, new section hangs under the nearest lower level", functions=["parser.py:subtitle_start_fn", "parser.py:close_begline_lists", "parser.py:_parser_pop"], bounds=f"all 64 open-level masks x levels 1..6 x list chains with deepest marker <= {2 if quick else 4} symbolic chars"),
+            "^headpre_|^hlinepre_": dict(name="Ob9 a heading / rule after a leading-space (preformatted) block: the block is closed where it is and the heading nests by level as always", functions=["parser.py:subtitle_start_fn", "parser.py:hline_fn", "parser.py:_parser_pop"], bounds="all 64 open-level masks x levels 1..6 (and the rule), PREFORMATTED node open on top of the sections"),
             "^hstray_": dict(name="Ob8 a heading-end token with no heading start on its line is text (no section closes, nothing moves into a heading argument)", functions=["parser.py:subtitle_end_fn"], bounds="all 64 masks x levels 1..6 x {directly in the section, inside a template argument}"),
             "^hend_": dict(name="Ob2 heading end on the same line moves the text into the heading argument", functions=["parser.py:subtitle_end_fn"], bounds="all 64 masks x levels 1..6"),
             "^hline_": dict(name="Ob3 rule closes sections deeper than level 2 and lands in the remaining top", functions=["parser.py:hline_fn"], bounds="all 64 masks x list chains"),
